@@ -37,6 +37,7 @@ __all__ = ['Envelope']
 
 _HEADER_BOUNDARY = re.compile(br'\r?\n\s*?\n')
 _LINE_BREAK = re.compile(br'\r?\n')
+_NO_REFOLD = SMTP.clone(refold_source='none')
 
 
 class Envelope(object):
@@ -90,8 +91,16 @@ class Envelope(object):
         return BytesParser(policy=SMTP).parse(BytesIO(data), *extra)
 
     def _msg_generator(self, msg):
+        try:
+            return self._generate(msg, SMTP)
+        except Exception:
+            # The standard library can fail while re-folding over-long or
+            # malformed header lines; emit those headers as they were received.
+            return self._generate(msg, _NO_REFOLD)
+
+    def _generate(self, msg, policy):
         outfp = BytesIO()
-        BytesGenerator(outfp, policy=SMTP).flatten(msg, False)
+        BytesGenerator(outfp, policy=policy).flatten(msg, False)
         return outfp.getvalue()
 
     def _merge_payloads(self, headers, payload):
